@@ -171,12 +171,22 @@ Proof.
   apply Forall_nil.
 Qed.
 
-(* --- a real ambiguity: the zerosubsecond: lines of the status log print the raw name (status.c:146-148) ----- *)
-Theorem C20_status_zerosub_refuted :
-  exists d fs1 fs2,
-    Forall (fun f => no_nul (f_sub f)) fs1 /\ Forall (fun f => no_nul (f_sub f)) fs2 /\
-    map f_sub fs1 <> map f_sub fs2 /\ zerosub_lines d fs1 0 = zerosub_lines d fs2 0.
-Proof. exact status_zerosub_refuted. Qed.
+(* --- the zerosubsecond: lines of the status log (status.c:146-148; the name goes through esc_tag since the repair of
+   finding F-C20-status-zerosubsecond-raw): they parse back for arbitrary names, and the logged names are determined
+   by the bytes ------------------------------------------------------------------------------------------------ *)
+Theorem C20_status_zerosub_parse : forall d fs, field_safe d -> Forall (fun f => no_nul (f_sub f)) fs ->
+  parse_log (zerosub_lines d fs 0) = map (fun p => Some (zerosub_rec d p)) (zerosub_entries fs 0).
+Proof. exact status_zerosub_parse. Qed.
+Theorem C20_status_zerosub_unambiguous : forall d fs1 fs2, field_safe d ->
+  Forall (fun f => no_nul (f_sub f)) fs1 -> Forall (fun f => no_nul (f_sub f)) fs2 ->
+  zerosub_lines d fs1 0 = zerosub_lines d fs2 0 -> zerosub_entries fs1 0 = zerosub_entries fs2 0.
+Proof. exact status_zerosub_unambiguous. Qed.
+Example C20_status_zerosub_nv :    (* the former witness: x: <LF>summary:has_bad:7:7:7 now gives ONE line *)
+  let forged := [120; 58; 32; 10] ++ t_summary ++ [58; 104; 97; 115; 95; 98; 97; 100; 58; 55; 58; 55; 58; 55] in
+  let fs := [mkfile forged 100 1600000000 0 1 []; mkfile [112] 100 1600000001 (-1) 2 []; mkfile [113] 1 1 5 3 []] in
+  Forall (fun f => no_nul (f_sub f)) fs /\ zerosub_entries fs 0 = [(forged, []); ([112], [])] /\
+  length (lines (zerosub_lines [100; 49] fs 0)) = 2%nat.
+Proof. cbv zeta. split; [repeat constructor; discriminate|split; reflexivity]. Qed.
 
 Print Assumptions C20_esc_tag_inverse.
 Print Assumptions C20_esc_tag_no_separator.
@@ -190,4 +200,5 @@ Print Assumptions C20_status_counters.
 Print Assumptions C20_esc_shell_injective.
 Print Assumptions C20_term_framing.
 Print Assumptions C20_term_line_framing_refuted.
-Print Assumptions C20_status_zerosub_refuted.
+Print Assumptions C20_status_zerosub_parse.
+Print Assumptions C20_status_zerosub_unambiguous.
